@@ -93,10 +93,12 @@ Theorem C09_header : forall (V : Type) (d zero : V) (wr : repr -> V -> V)
 Proof. exact encode_header. Qed.
 Print Assumptions C09_header.
 
-(* the data block of every written file is x fastest *)
+(* the data block of every written file is x fastest (extend_scalar off, or on for a vector
+   field, where it is ignored) *)
 Theorem C09_written_layout : forall (V : Type) (d zero : V) (wr : repr -> V -> V)
-    (f : ofield V) (rp : repr) (ss : bool) (fl : ovf_file V) (sc : option sidecar),
-  encode d zero wr f rp false ss = OK (fl, sc) ->
+    (f : ofield V) (rp : repr) (extend ss : bool) (fl : ovf_file V) (sc : option sidecar),
+  extend && (of_nvdim f =? 1)%nat = false ->
+  encode d zero wr f rp extend ss = OK (fl, sc) ->
   exists nx ny nz, dims3 (of_mesh f) = Some (nx, ny, nz) /\
     length (f_payload fl) = (nz * (ny * (nx * of_nvdim f)))%nat /\
     forall i j k c, (i < nx)%nat -> (j < ny)%nat -> (k < nz)%nat -> (c < of_nvdim f)%nat ->
@@ -104,6 +106,13 @@ Theorem C09_written_layout : forall (V : Type) (d zero : V) (wr : repr -> V -> V
       = wr rp (nth (cpos ny nz (of_nvdim f) i j k c) (of_vals f) d).
 Proof. exact written_layout. Qed.
 Print Assumptions C09_written_layout.
+
+(* extend_scalar=True is ignored for every field that is not scalar, in every representation *)
+Theorem C09_extend_ignored_for_vectors : forall (V : Type) (d zero : V) (wr : repr -> V -> V)
+    (f : ofield V) (rp : repr) (ss : bool),
+  of_nvdim f <> 1%nat -> encode d zero wr f rp true ss = encode d zero wr f rp false ss.
+Proof. exact extend_ignored. Qed.
+Print Assumptions C09_extend_ignored_for_vectors.
 
 (* ---------------------------------------------------------------- reader (own and foreign files) *)
 (* every accepted file (OVF 1.0 or 2.0, any representation): component count from the header
@@ -127,33 +136,30 @@ Proof. exact decode_ovf1. Qed.
 Print Assumptions C09_foreign_ovf1.
 
 (* ---------------------------------------------------------------- labels *)
-(* labels without "_" and without spaces come back unchanged ... *)
+(* labels without spaces come back unchanged: underscores and every other character included;
+   the only further guard is "no braces" (the reader removes { and } from every label) *)
 Theorem C09_labels_partial : forall l : list string,
-  Forall (fun c => has_us c = false /\ has_sp c = false) l ->
+  Forall (fun c => has_sp c = false /\ has_brace c = false) l ->
   map convert_label (map field_label l) = l.
 Proof. exact labels_roundtrip. Qed.
 Print Assumptions C09_labels_partial.
 
 Example C09_labels_partial_nonvacuous :
-  Forall (fun c => has_us c = false /\ has_sp c = false) ["mx"; "my"; "mz"]%string.
+  Forall (fun c => has_sp c = false /\ has_brace c = false) ["m_x"; "a-b"; "_c"; "d_"; "e.f"]%string.
 Proof. repeat constructor. Qed.
 
-(* ... but the full statement ("any labels without spaces") is false of the faithful model:
-   labels m_x, m_y are read back as x, y *)
-Theorem C09_labels_refuted : exists f', wit_roundtrip ["m_x"; "m_y"]%string RBin8 false = OK f' /\
-  of_vdims f' = Some ["x"; "y"]%string.
-Proof. exact wit_labels_refuted. Qed.
-Print Assumptions C09_labels_refuted.
+(* missing part of the full statement: a label containing a brace loses it ({a} -> a) *)
+Theorem C09_labels_braces_refuted : exists f', wit_roundtrip ["{a}"; "b"]%string RBin8 false = OK f' /\
+  of_vdims f' = Some ["a"; "b"]%string.
+Proof. exact wit_braces_refuted. Qed.
+Print Assumptions C09_labels_braces_refuted.
 
-(* extend_scalar=True on a two-component field: the binary writers fail, the text writer writes a
-   file that the reader rejects *)
-Theorem C09_extend_vector_refuted :
-  is_ok (encode 0 0 idQ (wit_field ["a"; "b"]%string) RBin8 true true) = false /\
-  is_ok (encode 0 0 idQ (wit_field ["a"; "b"]%string) RBin4 true true) = false /\
-  is_ok (encode 0 0 idQ (wit_field ["a"; "b"]%string) RTxt true true) = true /\
-  is_ok (wit_roundtrip ["a"; "b"]%string RTxt true) = false.
-Proof. exact wit_extend_vector_refuted. Qed.
-Print Assumptions C09_extend_vector_refuted.
+(* labels with underscore / non-word characters and extend_scalar=True on a vector field:
+   complete round trip of the witness field *)
+Theorem C09_underscore_extend_witness : exists f', wit_roundtrip ["m_x"; "a-b"]%string RBin8 true = OK f' /\
+  of_vdims f' = Some ["m_x"; "a-b"]%string /\ of_nvdim f' = 2%nat /\ of_vals f' = [1; 2; 3; 4].
+Proof. exact wit_underscore_ok. Qed.
+Print Assumptions C09_underscore_extend_witness.
 
 (* the same witness field with clean labels and extend_scalar off does round-trip completely *)
 Example C09_roundtrip_nonvacuous : exists f', wit_roundtrip ["a"; "b"]%string RBin8 false = OK f' /\
